@@ -10,7 +10,7 @@ their path sets are equal after rewriting.
 """
 from .expr import LocalEnv, canon, show
 from .facts import kids, short, walk
-from .tables import enum_paths, value_literals, norm_literal
+from .tables import enum_paths, value_literals, norm_literal, _separates
 
 
 def rewrite(t, fn):
@@ -210,7 +210,11 @@ class Summ:
         for p in enum_paths(body):
             conds = []
             skip = False
-            for c in p.conds:
+            for kind, c in p.seq:
+                if kind == 's':
+                    if _separates(c):
+                        conds.append(('stmt',))
+                    continue
                 cc = self.cond(c)
                 if cc[0] == 'if' and cc[1] == 'TRUE':
                     if cc[2] is False:
